@@ -48,6 +48,14 @@ def main():
             return 1
         print("replay: property holds on this case now")
         return 0
+    # watchdog: a check that does not finish is an alarm, never a silent hang (an implementation that stopped terminating must be reported)
+    import signal
+    limit = int(os.environ.get("VERIF_WATCHDOG_S") or (2400 if tier == "quick" else 6 * 3600))
+
+    def on_alarm(_sig, _frm):
+        raise TimeoutError(f"the check did not finish within {limit} s (an implementation call or a model evaluation does not terminate?)")
+    signal.signal(signal.SIGALRM, on_alarm)
+    signal.alarm(limit)
     try:
         mod.run(ctx)
     except common.TieBroken as ex:
